@@ -11,10 +11,11 @@ TRACE_CFG = "Determinism_Trace.cfg"
 LEVEL = "model_checking"
 
 
-def validate(ctx, programs, source, tamper=True):
+def validate(ctx, programs, source, tamper=True, isolated=False):
     ctx.replay_driver = "determinism"
     return ctx.validate(TRACE, TRACE_CFG, programs, D.run_program, source=source, expect_clean=True,
-                        tamper=D.tamper if tamper else None, chunk=300)
+                        tamper=D.tamper if tamper else None, chunk=300,
+                        isolated=("determinism", "run_program", 180) if isolated else None)
 
 
 def replay(ctx, doc):
@@ -67,7 +68,7 @@ def run(ctx):
     n = 16 if q else 120
     progs = [{"config": rng.choice(D.CONFIGS), "seed": rng.randint(0, 10 ** 6), "schedule": D.random_schedule(rng, 5), "where": "fresh",
               "hashseed": ("0", "1", "12345", "random")[k % 4]} for k in range(n)]
-    validate(ctx, progs, "fresh interpreters with PYTHONHASHSEED 0 / 1 / 12345 / random vs. the reference run in this process")
+    validate(ctx, progs, "fresh interpreters with PYTHONHASHSEED 0 / 1 / 12345 / random vs. the reference run", isolated=True)
     n = 8 if q else 60
     progs = [{"config": rng.choice(D.CONFIGS), "seed": rng.randint(0, 10 ** 6), "schedule": [["A", 1]] * 5, "where": "worker"} for _ in range(n)]
-    validate(ctx, progs, "execution inside batch_run worker processes (2 processes, 2 repetitions) vs. the reference run in this process")
+    validate(ctx, progs, "execution inside batch_run worker processes (2 processes, 2 repetitions) vs. the reference run", isolated=True)
